@@ -242,6 +242,8 @@ func checkC06(c *Ctx) {
 	if !m.ok {
 		return
 	}
+	// the declared SIZE is found wherever it stands among the ESMTP parameters
+	c.paramRegexp("C06/SIZE/param-parse", smtpRel, 1)
 	p := c.P
 
 	// ---- D1: SIZE= at MAIL
